@@ -436,9 +436,9 @@ func errStr(e error) string {
 
 func main() {
 	hk.InstallHook()
-	hk.Rule("seq: seeded sequential histories (register, publish by owner/delegate, wrong-token publish, link/monitor by local and remote subscribers, unsubscribe, duplicate (un)subscribe, unregister, owner kill/exit/panic, optional subscriber death) decided against an exact reference model after quiescence of every step (never counted non-trivial: nothing overlaps); " +
+	hk.Rule("seq: seeded sequential histories (register, failed registration of the taken name by another process or the node and later termination of that process, publish by owner/delegate, wrong-token publish, link/monitor by local and remote subscribers, unsubscribe, duplicate (un)subscribe, unregister, owner kill/exit/panic, optional subscriber death) decided against an exact reference model after quiescence of every step (never counted non-trivial: nothing overlaps); " +
 		"conc: seeded concurrent churn (1-3 publishers holding the token publish batches, optionally a process without the token publishes too, while 2-9 local/remote subscribers subscribe, unsubscribe or die at PRNG publication counts, yield-point stress at event.sub.added/link.checked/mpsc.push/proc.unreg.event/recv.pushed/send.pick; afterwards a quiescent probe subscriber, then the event is unregistered or its owner killed/exits); " +
-		"park: the subscriber (or the connection handler acting for a remote one) is parked at event.sub.added while the producer publishes k messages (with and without eviction from the bounded buffer), with a witness subscriber on the same node; park-remote: the owner node's reply to a remote subscribe is parked at send.pick while the producer publishes; park-end: the subscriber is parked at link.checked while the event is unregistered / its owner killed; notify: the first subscriber is lost by kill/exit/node-down, a second one subscribes and unsubscribes; " +
+		"park: the subscriber (or the connection handler acting for a remote one) is parked at event.sub.added while the producer publishes k messages (with and without eviction from the bounded buffer), with a witness subscriber on the same node; park-remote: the owner node's reply to a remote subscribe is parked at send.pick while the producer publishes; park-end: the subscriber is parked at link.checked while the event is unregistered / its owner killed; notify: the first subscriber is lost by kill/exit/node-down, a second one subscribes and unsubscribes; intruder: another process (or the node) fails to register the taken event name and then terminates while local and remote subscribers are subscribed and the owner keeps publishing; " +
 		"hammer: subscribers subscribe+unsubscribe in a tight loop against a continuously publishing producer with Buffer 1..4. " +
 		"A case is non-trivial iff a SendEvent call overlapped a subscribe call in logical time (measured from the client-side clocks: conc, hammer) or, for the gate families, iff the gate fired while publications were made / the event was ended. distinct = family x parameters (buffer, notify, publishers, remote subscribers present, deaths, end mode, link/monitor, gate, publications while parked)")
 	hk.Assume("a subscriber process subscribes to a given event at most once in the concurrent families, so its lifetime event log is the live sequence L of that subscription")
@@ -518,6 +518,11 @@ func main() {
 	for _, how := range []string{"kill", "exit", "remotekill", "nodedown"} {
 		for _, link := range []bool{true, false} {
 			runNotifyDeath(how, link)
+		}
+	}
+	for _, how := range []string{"kill", "exit", "panic", "node"} {
+		for _, early := range []bool{false, true} {
+			runIntruder(how, early)
 		}
 	}
 	runDual()
@@ -1009,6 +1014,155 @@ func runNotifyDeath(how string, link bool) {
 		ensureConn()
 	}
 	finish(id, "notify", id, false, int64(stC+spC+2), res, map[string]any{"after_loss": []int{stA, spA}, "after_second_subscribe": []int{stB, spB}, "after_last_unsubscribe": []int{stC, spC}})
+}
+
+// ---------------------------------------------------------------------------
+// a failed registration must not give the failing process any hold on the event: P1 registers E, P2
+// (or the node itself: how=node) tries to register E and fails, consumers subscribe (before or after the
+// failed attempt), P2 terminates, P1 publishes. Nobody may be told that E ended, the publications with
+// the valid token must succeed and be delivered exactly once.
+
+func runIntruder(how string, early bool) {
+	id := fmt.Sprintf("intruder/%s/subscribed-before-attempt=%v", how, early)
+	if !hk.Want(id) {
+		return
+	}
+	res := &result{}
+	pm := markPanics()
+	panicsWithBuffer.Store(false)
+	hasRemote := ensureConn()
+	owner, _ := spawnActor(nodeA, false, id+"/owner")
+	intr, _ := spawnActor(nodeA, false, id+"/intruder")
+	if owner == nil || intr == nil {
+		return
+	}
+	var subs []*actor
+	for i := 0; i < 4; i++ {
+		remote := i >= 2
+		if remote && !hasRemote {
+			continue
+		}
+		n := nodeA
+		if remote {
+			n = nodeB
+		}
+		if a, err := spawnActor(n, remote, fmt.Sprintf("%s/sub%d", id, i)); err == nil {
+			subs = append(subs, a)
+		}
+	}
+	all := append([]*actor{owner, intr}, subs...)
+	defer func() { killAll(all...) }()
+	name := freshEvent("in")
+	ev := gen.Event{Name: name, Node: nodeA.Name()}
+	tok, err := owner.register(name, gen.EventOptions{Buffer: 2, Notify: true})
+	if err == nil {
+		err = setupFence(owner, subs)
+	}
+	if err != nil {
+		res.inconclusive("setup: " + err.Error())
+		finish(id, "intruder", id, false, 0, res, nil)
+		return
+	}
+	c := &evCtx{ev: ev, n: 2, notify: true, log: &pubLog{}, nPubs: 1}
+	recs := make([]*subRec, len(subs))
+	subscribeAll := func() {
+		for i, s := range subs {
+			r, ok := s.subscribe(ev, i%2 == 0)
+			if !ok || r.Err != nil {
+				res.inconclusive(fmt.Sprintf("%s: subscribe failed: %v", s.label, r.Err))
+				if s.remote {
+					connSuspect.Store(true)
+				}
+				continue
+			}
+			recs[i] = r
+		}
+	}
+	if early {
+		subscribeAll()
+	}
+	// the failed attempt
+	var aerr error
+	if how == "node" {
+		_, aerr = nodeA.RegisterEvent(name, gen.EventOptions{Buffer: 1})
+	} else {
+		_, aerr = intr.register(name, gen.EventOptions{Buffer: 1})
+	}
+	if aerr == nil {
+		res.violate("register-taken-name-accepted", "RegisterEvent of %s, registered by %s, returned nil for %s", name, owner.pid, how)
+	}
+	if !early {
+		subscribeAll()
+	}
+	owner.publish(cPub{Name: name, Token: tok, From: 1, N: 2, Log: c.log, Fence: true, FID: 1})
+	// the process whose registration failed goes away
+	switch how {
+	case "kill":
+		intr.kill()
+	case "exit":
+		intr.tell(cDie{Reason: gen.TerminateReasonNormal})
+	case "panic":
+		intr.tell(cPanic{})
+	}
+	if how != "node" {
+		if !hk.WaitUntil(10*time.Second, func() bool { return intr.termed.Load() && intr.inst.Quiet() }) {
+			res.inconclusive("watchdog: intruder did not terminate")
+		}
+	}
+	var errs []error
+	owner.publish(cPub{Name: name, Token: tok, From: 3, N: 3, Log: c.log, Errs: &errs, Fence: true, FID: 2})
+	if !waitFences(subs, []Fence{{ID: 1}}, 8*time.Second) {
+		res.inconclusive("watchdog: first fence not received")
+	}
+	// the second fence cannot arrive if the event mechanism was torn down; network quiescence decides then
+	hk.WaitUntil(8*time.Second, func() bool {
+		ok := true
+		for _, s := range subs {
+			if s.remote && !s.hasFence(Fence{ID: 2}) {
+				ok = false
+			}
+		}
+		return ok || netQuiescent()
+	})
+	if !waitIdle(8*time.Second, all...) {
+		res.inconclusive("watchdog: no quiescence")
+	}
+	checkPanics(res, pm)
+	var events int64
+	ix := indexPubs(c.log.snapshot())
+	for i, s := range subs {
+		if recs[i] == nil {
+			continue
+		}
+		for _, g := range s.signals(ev) {
+			events++
+			kind := "exit"
+			if g.Down {
+				kind = "down"
+			}
+			sfx := ""
+			if s.remote {
+				sfx = "-remote"
+			}
+			res.violate("spurious-"+kind+"-while-event-registered"+sfx, "%s: received %v although the event is registered and its owner alive; only a process whose registration of the same name had failed terminated (%s)", s.label, g, how)
+		}
+		l := s.received(ev)
+		events += int64(len(l))
+		lastIn := checkBuffer(res, s.label, *recs[i], c, ix)
+		checkLive(res, s.label, s.remote, *recs[i], l, c, ix, lastIn, inf, func(int) bool { return !s.remote || s.hasFence(Fence{ID: 2}) || netQuiescent() })
+	}
+	for i, e := range errs {
+		events++
+		if e != nil {
+			res.violate("publish-error-with-valid-token", "owner alive, event never unregistered, a process whose RegisterEvent of the same name had FAILED terminated (%s): SendEvent #%d with the registration token returned %v", how, 3+i, e)
+			break
+		}
+	}
+	st := owner.notesFor(name)
+	if res.incon == "" && len(subs) > 0 && (len(st) != 1 || !st[0].Start) {
+		res.violate("notification-mismatch", "one 0->1 transition happened, producer's notifications: %v", st)
+	}
+	finish(id, "intruder", id, false, events+int64(len(st)), res, map[string]any{"attempt_error": errStr(aerr), "publish_errors": fmt.Sprint(errs)})
 }
 
 // ---------------------------------------------------------------------------
